@@ -48,6 +48,7 @@ def execute(c):
     from hdc.algo.ops.zonal import do_mean
 
     pix, zones = build(c["steps"], c["shape"], c["dtype"], c.get("shuffle"))
+    ND = c.get("ndv", globals()["ND"])      # the nodata value of this case (data values equal to it are the missing ones)
     out = np.float32 if c["bits"] == 24 else np.float64
     watch = core.Watch(pix, zones)
     if c["api"] == "kernel":
@@ -78,11 +79,11 @@ def execute(c):
             resb = np.asarray(vb)
             # the twin: same pixels, zone k of raster B is zone k-1 of raster A
             nzz = c["nz"]
-            c["twin"] = {"nz": nzz, "bits": c["bits"], "nd": str(ND), "znd": ZND, "inmod": False,
+            c["twin"] = {"nz": nzz, "bits": c["bits"], "nd": core.rat(ND), "znd": ZND, "inmod": False,
                          "steps": [[[((z + 1) % nzz if z != ZND else ZND), v, cnt] for (z, v, cnt) in runs] for runs in c["steps"]],
                          "res": [[[core.rat(resb[t, z, 0]), core.rat(resb[t, z, 1])] for z in range(nzz)] for t in range(resb.shape[0])]}
             c["res"] = [[[core.rat(res[t, z, 0]), core.rat(res[t, z, 1])] for z in range(nzz)] for t in range(res.shape[0])]
-            c["nd"], c["znd"], c["inmod"] = str(ND), ZND, watch.changed()
+            c["nd"], c["znd"], c["inmod"] = core.rat(ND), ZND, watch.changed()
             return c
         zone_ids = list(range(c["nz"])) if c["tid"] % 2 else np.arange(c["nz"])
         dimn = "zones" if c["tid"] % 3 else "region"
@@ -95,7 +96,7 @@ def execute(c):
         if str(r.dtype) != ("float32" if c["bits"] == 24 else "float64"):
             res = np.full_like(res, -12345.0)
     c["res"] = [[[core.rat(res[t, z, 0]), core.rat(res[t, z, 1])] for z in range(c["nz"])] for t in range(res.shape[0])]
-    c["nd"] = str(ND)
+    c["nd"] = core.rat(ND)
     c["znd"] = ZND
     c["inmod"] = watch.changed()
     return c
@@ -132,10 +133,10 @@ def gen_cases(tier, seed):
             r = rng.random()
             if r < pmiss:
                 v = ND
-            elif r < pmiss + pnan and dtype != "int16":
+            elif r < pmiss + pnan and dtype not in ("int16", "int32"):
                 v = None
             else:
-                v = rng.randint(-2000, 10000) if dtype == "int16" else rng.choice([rng.randint(-2000, 10000), rng.randint(-8000, 8000) / 8.0])
+                v = rng.randint(-2000, 10000) if dtype in ("int16", "int32") else rng.choice([rng.randint(-2000, 10000), rng.randint(-8000, 8000) / 8.0])
             out.append([z, v, cnt])
         return out
 
@@ -144,14 +145,22 @@ def gen_cases(tier, seed):
         ny, nx = rng.randint(1, 12), rng.randint(1, 12)
         nz = rng.choice([1, 2, 3, 5, 17, 100, 1000])
         nz_used = max(1, min(nz, rng.randint(1, 8)))
-        dtype = rng.choice(["int16", "float32", "float64"])
+        dtype = rng.choice(["int16", "float32", "float64", "int32"])
         lay = layout(ny * nx, nz_used, [1, 1, 2, 3, 7])
         T = rng.randint(1, 3)
         steps = [values(lay, dtype, rng.choice([0, 0.2, 0.8]), rng.choice([0, 0.2])) for _ in range(T)]
         api = rng.choice(["kernel", "accessor", "accessor_dask", "accessor_dask_joint"])
         if api == "kernel":   # the kernel itself only knows nodata (NaN is mapped to nodata by the accessor)
             steps = [[[z, (ND if v is None else v), cnt] for z, v, cnt in s] for s in steps]
-        add({"api": api, "steps": steps, "shape": [ny, nx], "dtype": dtype, "nz": nz, "bits": rng.choice([24, 24, 53])})
+        c = {"api": api, "steps": steps, "shape": [ny, nx], "dtype": dtype, "nz": nz, "bits": rng.choice([24, 24, 53])}
+        # the nodata value itself varies: values the data type holds exactly but a narrower float does not
+        # (1e20, the int32 maximum), the edges of int16, the float maxima
+        ndv = rng.choice({"int16": [ND, ND, -32768, 32767], "int32": [2147483647, -2147483648, ND], "float32": [ND, ND, -3.4028234663852886e38],
+                          "float64": [ND, 1e20, -1.7976931348623157e308, 2147483647.0]}[dtype])
+        if ndv != ND:
+            c["ndv"] = ndv
+            c["steps"] = [[[z, (ndv if v == ND else v), cnt] for z, v, cnt in s_] for s_ in steps]
+        add(c)
     # large zones in run-length form
     big = [(400, 250), (1000, 1000), (4200, 4200)] if quick else [(400, 250), (1000, 1000), (3000, 3000), (5000, 5000)]
     for ny, nx in big:
